@@ -120,6 +120,19 @@ CLAIMED = {
               'rational arithmetic on the table constants within a first-order forward error bound.'),
         note='Exploration, not model checking, is the honest level for the floating-point side; the oracle is the spec formula.',
         technique='TLA+ spec (TLC-checked laws and case classes) + exhaustive/sampled enumeration against the exact-rational spec formula'),
+    'C07': dict(
+        category='model_checking', design='3/C07',
+        text=('The fixed-length codes of LIS-79 and RP66V1 are TLA+ operators giving exact dyadic values, the variable-length '
+              'codes consumption operators, and the code-68 encoder a normalising encoder whose two laws TLC checks on a lattice '
+              '(RepCodes.tla).  TLC writes oracle tables (every sign/exponent class x boundary fractions of the 32-bit codes, '
+              'every 8-bit word, every / every 17th 16-bit word, UVARI prefixes, consumption lengths) against which the Python, '
+              'Cython (rebuilt from the current .pyx), C++ implementations, the RepCode front ends and the RP66V1 code_read / '
+              '*_len helpers are compared exactly; the three code-68 implementations are compared bit for bit with each other '
+              'and with the specification decoder on 10^6 (quick) / 2*10^7 (thorough) sampled words and doubles, including the '
+              're-encoding and precision laws on the real to68.'),
+        note=('The 2^32 sweep is sampled enumeration in the harness, not TLC. Not judged: LIS code 50 with negative exponent field, '
+              'VSINGL values (conflicting sources offline), FDOUBL. Known finding F17 (to68(-2^127)).'),
+        technique='TLA+ reference operators + TLC-checked encoder laws and TLC-written oracle tables; exact comparison of all implementations'),
 }
 
 NOT_YET = 'check not built yet in this session; planned per DESIGN.md section 3'
